@@ -22,6 +22,7 @@ func init() {
 			a.sexpDiscipline("S.sexp")
 			a.randomDiscipline("E.random")
 			a.akeStateInvariant("T.ake-state")
+			a.smpStateCommittedLast("S.smp-commit-last")
 			a.c16Whitespace() // the tag scan consumes one group per iteration (no iteration without progress)
 			a.retireImpliesMove()
 			a.fragmentResetBeforeDispatch("S.fragment-reset")
@@ -512,6 +513,14 @@ func (a *An) narrowings(rule string, lengthsMustMatch bool) {
 
 // ---- panics / assertions -------------------------------------------------------------------------
 
+// assertAccessor: for the unchecked assertions that are safe because an accessor returns a fixed dynamic type, the
+// accessor (checked on every run).
+var assertAccessor = map[string]string{
+	"readPotentialBigNum":         "(sexp.BigNum).Value",
+	"readPotentialSymbol":         "(sexp.Symbol).Value",
+	"readPotentialStringOrSymbol": "(sexp.Sstring).Value",
+}
+
 func (a *An) panicsAndAsserts(rule string) {
 	okPanic := map[string]bool{"(sexp.BigNum).First": true, "(sexp.BigNum).Second": true, "(sexp.Sstring).First": true, "(sexp.Sstring).Second": true, "(sexp.Symbol).First": true, "(sexp.Symbol).Second": true}
 	okAssert := map[string]string{
@@ -532,6 +541,18 @@ func (a *An) panicsAndAsserts(rule string) {
 						continue
 					}
 					why, ok := okAssert[fn]
+					// the accessor the reviewed reason relies on really returns that dynamic type on every path
+					if acc, has := assertAccessor[fn]; ok && has {
+						if g := a.MustFn(acc); g != nil {
+							for _, r := range a.returnsOf(g) {
+								mi, isMI := r.Results[0].(*ssa.MakeInterface)
+								if !isMI || !types.Identical(mi.X.Type(), x.AssertedType) {
+									ok = false
+									why = acc + " can return " + a.C.Term(r.Results[0]) + " (not a value of type " + typeName(x.AssertedType) + ")"
+								}
+							}
+						}
+					}
 					a.R.Check(ok, rule, "assert|"+fn+"|"+typeName(x.AssertedType), "unchecked type assertions only where the dynamic type is known: "+why, a.C.InstrPos(in), "unchecked assertion to "+typeName(x.AssertedType)+" in "+fn)
 				}
 			}
